@@ -124,6 +124,16 @@ CHECKS = {
         "Line granularity; lock and GC are run-time substitutes for backend_z3._gc_lock / backend_z3.gc.",
         "DESIGN.md §1.4, §2 C19",
     ),
+    "C05": (
+        "model_checking",
+        "explicit-state BFS over expressions (E1) on the real constructors; metadata recomputed recursively on every transition and after every metadata-touching follow-up operation",
+        "Every E1 transition at widths 1-3 (thorough 1-4, depth 3): length / variables / symbolic / concrete / depth / "
+        "concrete_value of the result against a recursive recomputation, the written width and the truth table; every "
+        "distinct state additionally through annotation edits, replace / replace_dict, excavate_ite, burrow_ite, "
+        "canonicalize, Z3 conversion (sort width, free constants) and claripy.simplify.",
+        "variables may be a superset; FP / string metadata is outside this check's operator table.",
+        "DESIGN.md §2 C05",
+    ),
 }
 
 NOT_YET = "check not built yet in this session (planned; see DESIGN.md §2)"
